@@ -10,6 +10,8 @@
 #include <parmcb/detail/bfs.hpp>
 
 #include <functional>
+#include <iterator>
+#include <list>
 #include <numeric>
 
 #ifdef PARMCB_HAVE_TBB
@@ -278,7 +280,18 @@ public:
         EdgeWeightMapType spanner_weight_map = get(boost::edge_weight,
                 _spanner);
         ExactAlgorithm exact_mcb_algo;
-        _weight += exact_mcb_algo(_spanner, spanner_weight_map, out);
+        std::list<std::list<Edge>> spanner_cycles;
+        _weight += exact_mcb_algo(_spanner, spanner_weight_map,
+                std::back_inserter(spanner_cycles));
+
+        // translate spanner edges to edges of the input graph
+        for (const auto &spanner_cycle : spanner_cycles) {
+            std::list<Edge> cycle;
+            for (const auto &spanner_e : spanner_cycle) {
+                cycle.push_back(_edge_spanner_to_g.at(spanner_e));
+            }
+            *out++ = cycle;
+        }
 
         // compute remaining cycles
         parmcb::detail::NonSpannerEdgesCycleBuilder<Graph, WeightMap,
